@@ -134,7 +134,8 @@ def run(ctx, rep):
         env = E.mk_enum('closure-env', 'env', 0, ())
         caps = []
         # captured variables in order: types from the upvar debug info are not exported; use positions
-        clo = ('closure', wc, tuple(('param', f'cap{i}') for i in range(8)))
+        ctys = closure_capture_types(ctx, wc)
+        clo = ('closure', wc, tuple(('sender', 'tx', i) if 'Sender<' in ty else ('param', f'cap{i}') for i, ty in enumerate(ctys)))
         a = [clo] if 'ref' not in body.locals[1] else [E.mk_ref(('S', clo), ())]
         tree2 = eng2.call_entry(wc, a)
         lv = list(E.leaves_of(tree2))
@@ -164,7 +165,8 @@ def run(ctx, rep):
         def hook(eng, st, fr, t, a, b):
             appends.append((a, b))
         eng3.hooks['map_append'] = hook
-        clo = ('closure', cc, (('receiver', 'rx'),))
+        ctys = closure_capture_types(ctx, cc)
+        clo = ('closure', cc, tuple(('receiver', 'rx') if 'Receiver<' in ty else ('param', f'cap{i}') for i, ty in enumerate(ctys)))
         a = [clo] if 'ref' not in body.locals[1] else [E.mk_ref(('S', clo), ())]
         tree3 = eng3.call_entry(cc, a)
         lv = list(E.leaves_of(tree3))
@@ -196,6 +198,19 @@ def run(ctx, rep):
             rep.ob('R15.4', 'collector-only-appends', okm, 'returns the union of the received maps (BTreeMap::append into an empty map)'
                    if okm else f'collector returns {show(ret, maxd=4)[:140]}')
         rep.floor('append sites', len(appends), 1)
+
+
+def closure_capture_types(ctx, clo_path):
+    """place types of the operands captured where the closure is created"""
+    for p, b in ctx.lib.bodies.items():
+        for bi, si, s in b.assigns():
+            rv = s['rv']
+            if rv['k'] == 'agg' and isinstance(rv['agg'], dict) and rv['agg'].get('closure') == clo_path:
+                out = []
+                for o in rv['ops']:
+                    out.append(o.get('place', {}).get('ty') or o.get('ty', '?'))
+                return out
+    return []
 
 
 def lower_bound_parallelism(a):
